@@ -51,7 +51,7 @@ TAdmitFail == IsEvent("wp.full") /\ AdmitFail(E.c)
 TConcInc == IsEvent("srv.conc.inc") /\ (ServeEnter(E.c) \/ TryAcquireOk(E.c))
 TConcFail == IsEvent("srv.conc.fail") /\ AcquireFailAtomic(E.c)
 TConcDec == IsEvent("srv.conc.dec") /\ (ConcDecS(E.c) \/ ConcDecSC(E.c))
-TDone == IsEvent("wp.done") /\ WorkerDone(E.c) /\ (E.hij = 1) = (hj[E.c] # "none")
+TDone == IsEvent("wp.done") /\ WorkerDone(E.c, E.hij = 1)
 TRelease == IsEvent("wp.release") /\ WorkerRelease(E.c) /\ wbusy' = E.n
 THEnter == IsEvent("h.enter") /\ HandlerEnter(E.c)
 THExit == IsEvent("h.exit") /\ HandlerExit(E.c, E.hij = 1)
